@@ -268,6 +268,16 @@ func runC08BBoxRead(c *Ctx) {
 		fill = fieldGuards(call, "twkbParser")
 	}
 	if fill == nil {
+		// no direct call (e.g. a table of header steps): the fill condition by
+		// interpretation of parseHeaders over all combinations of its flags
+		var undec string
+		fill, undec = bboxFillByInterpretation(c, ph)
+		if undec != "" {
+			c.Undecided(ph.Pos(), FuncName(ph), "bbox fill condition", "cannot interpret: "+undec)
+			return
+		}
+	}
+	if fill == nil {
 		c.Bad(ph.Pos(), FuncName(ph), "bbox fill condition", "parseHeaders no longer calls parseBBox")
 		return
 	}
@@ -299,14 +309,99 @@ func runC08BBoxRead(c *Ctx) {
 		}
 	})
 	c.Check(bad == "" && n > 0, rd.Pos(), FuncName(rd), "bbox read condition implies fill condition", fmt.Sprintf("all %d index expressions on p.bbox are guarded by every condition under which it is filled {%s}", n, keysOf(fill)), bad)
-	// the fill loop appends twice per dimension
-	apps := 0
-	eachCall(pb, func(call ssa.CallInstruction) {
-		if b, ok := call.Common().Value.(*ssa.Builtin); ok && b.Name() == "append" {
-			apps++
+	// the fill loop appends twice per dimension: parseBBox interpreted with 2, 3
+	// and 4 dimensions (varint reads opaque and succeeding) leaves 2*dimensions
+	// values in p.bbox
+	problem, undec := "", ""
+	for _, d := range []int{2, 3, 4} {
+		m := &Model{Num: map[string]float64{"$0.dimensions": float64(d)}, Bool: map[string]bool{}, Missing: map[string]bool{}}
+		it := &k4interp{p: c.P, m: m, mem: map[string]k4val{}}
+		it.mem["$0.bbox"] = k4val{kind: 8, s: "BB", ln: 0, cp: 0}
+		reads := 0
+		it.onOpaque = func(name string, args []k4val) {
+			if strings.HasSuffix(name, ").parseSignedVarint") {
+				reads++
+			}
 		}
-	})
-	c.Check(apps == 2, pb.Pos(), FuncName(pb), "values per dimension", "min and delta appended for each dimension", fmt.Sprintf("parseBBox appends %d values per dimension, the reader indexes 2 per dimension", apps))
+		it.answer = func(key string, isBool bool) (k4val, bool) {
+			if !isBool && strings.Contains(key, "parseSignedVarint(") {
+				return k4val{kind: 2, f: 7}, true
+			}
+			if isBool && strings.Contains(key, "parseSignedVarint(") {
+				if strings.Contains(key, "!=nil") {
+					return k4val{kind: 1, b: false}, true
+				}
+				if strings.Contains(key, "==nil") {
+					return k4val{kind: 1, b: true}, true
+				}
+			}
+			return k4val{}, false
+		}
+		if _, err := it.call(pb, []k4val{{kind: 3, s: "$0"}}, nil); err != nil {
+			undec = fmt.Sprintf("%v %s", err, trunc(missingList(m)))
+			break
+		}
+		got := it.mem["$0.bbox"]
+		if got.kind != 8 || got.ln != 2*d || reads != 2*d {
+			problem = fmt.Sprintf("with %d dimensions parseBBox reads %d varints and leaves %d values in p.bbox; the reader indexes 2 per dimension (%d)", d, reads, got.ln, 2*d)
+			break
+		}
+	}
+	reportK4(c, pb, "values per dimension", undec, problem, "min and delta appended for each dimension (interpreted with 2, 3 and 4 dimensions)")
+}
+
+// bboxFillByInterpretation: the flags that must hold for parseHeaders to call
+// parseBBox, found by interpreting it (steps opaque and succeeding) for all
+// combinations of the three header flags.
+func bboxFillByInterpretation(c *Ctx, ph *ssa.Function) (map[string]bool, string) {
+	flags := []string{"hasExt", "hasSize", "hasBBox"}
+	called := map[int]bool{}
+	any := false
+	for mask := 0; mask < 8; mask++ {
+		m := &Model{Num: map[string]float64{}, Bool: map[string]bool{}, Missing: map[string]bool{}}
+		for i, fl := range flags {
+			m.Bool["$0."+fl] = mask&(1<<i) != 0
+		}
+		it := &k4interp{p: c.P, m: m, mem: map[string]k4val{}}
+		it.onOpaque = func(name string, args []k4val) {
+			if strings.HasSuffix(name, ").parseBBox") {
+				called[mask] = true
+				any = true
+			}
+		}
+		it.answer = func(key string, isBool bool) (k4val, bool) {
+			if isBool && strings.Contains(key, ").parse") {
+				if strings.Contains(key, "!=nil") {
+					return k4val{kind: 1, b: false}, true
+				}
+				if strings.Contains(key, "==nil") {
+					return k4val{kind: 1, b: true}, true
+				}
+			}
+			return k4val{}, false
+		}
+		if _, err := it.call(ph, []k4val{{kind: 3, s: "$0"}}, nil); err != nil {
+			return nil, fmt.Sprintf("%v %s", err, trunc(missingList(m)))
+		}
+	}
+	if !any {
+		return nil, ""
+	}
+	fill := map[string]bool{}
+	for i, fl := range flags {
+		for _, truth := range []bool{false, true} {
+			needed := true
+			for mask := 0; mask < 8; mask++ {
+				if called[mask] && (mask&(1<<i) != 0) != truth {
+					needed = false
+				}
+			}
+			if needed {
+				fill[fmt.Sprintf("%s=%v", fl, truth)] = true
+			}
+		}
+	}
+	return fill, ""
 }
 
 func keysOf(m map[string]bool) string {
